@@ -6,6 +6,7 @@ mod bs;
 mod mq;
 mod pl;
 mod ra;
+mod sd;
 mod tp;
 mod rp;
 mod util;
@@ -74,6 +75,7 @@ fn main() {
             "ra" => ra::run_case(&mut servers, &f),
             "tp" => tp::run_case(&f),
             "bs" => bs::run_case(&f),
+            "sd" => sd::run_case(&f),
             other => format!("UNKNOWN-EXECUTOR {}", other),
         };
         writeln!(out, "{}", obs).unwrap();
